@@ -128,7 +128,9 @@ pub open spec fn start_ev(name: Seq<char>, attrs: Fields, ns: Option<Pair>) -> E
         name,
         attrs: attr_pairs(attrs, attrs.len() as int),
         ns: match ns {
-            Some(d) => if d.0.len() == 0 { seq![(Seq::<char>::empty(), d.1)] } else { seq![d] },
+            // the uri reaches the writer escaped like an attribute value: xml-rs copies namespace declarations
+            // into the document verbatim (fix 26eb7a5; mutant ns_uri_not_escaped restores the pinned behaviour)
+            Some(d) => if d.0.len() == 0 { seq![(Seq::<char>::empty(), xml_esc_attr(d.1))] } else { seq![(d.0, xml_esc_attr(d.1))] },
             None => Seq::<Pair>::empty(),
         },
     }
@@ -386,6 +388,7 @@ pub proof fn lemma_field_unique(fs: Fields, key: Seq<char>, k: int)
 //@ extract src/convert/xml.rs :: impl XmlConverter :: fn write_node
 //@   subst "write_node<W: std::io::Write>" => "write_node<'a>"
 //@   subst "EventWriter<W>" => "EventWriter<&'a mut VDynWrite>"
+//@   subst "xml::escape::escape_str_attribute(uri).into_owned()" => "verif_xml_escape_attr(uri)"
 //@   ret r
 //@   sig <<<
         ensures
@@ -463,7 +466,8 @@ pub proof fn lemma_field_unique(fs: Fields, key: Seq<char>, k: int)
 //@   mutant bare_text_dropped "w.write(XmlEvent::characters(s.as_ref()))?;" => "" expect write_node
 //@   mutant text_node_dropped "w.write(XmlEvent::characters(text))?;" => "" expect write_node
 //@   mutant name_and_text_accepted "if name.is_some() && text.is_some() {" => "if false && name.is_some() && text.is_some() {" expect write_node
-//@   mutant ns_prefix_uri_swapped "start.ns(prefix, uri)" => "start.ns(uri, prefix)" expect write_node
+//@   mutant ns_prefix_uri_swapped "start.ns(prefix, uri.as_str())" => "start.ns(uri.as_str(), prefix)" expect write_node
+//@   mutant ns_uri_not_escaped "let uri = verif_xml_escape_attr(uri);" => "let uri = uri.to_string();" expect write_node
 //@   mutant child_error_swallowed "self.write_node(child.as_ref(), w)?;" => "let _ = self.write_node(child.as_ref(), w);" expect write_node
 //@   mutant text_emitted_before_both_error "if name.is_some() && text.is_some() {" => "if name.is_some() && text.is_some() { w.write(XmlEvent::characters(text.unwrap()))?;" expect write_node
 //@   mutant nameless_node_accepted "if name.is_none() && text.is_none() {" => "if false && name.is_none() && text.is_none() {" expect write_node
